@@ -127,6 +127,10 @@ def run(ctx):
                 ctx.bad(R_view, "compact|stale-view", "%s:%d" % (cp.file, t_["ln"]), "`%s` at line %d is reachable without re-opening the archive view" % (norm(mirg.callee(t_) or "").split("::")[-1], t_["ln"]),
                         "after replace/add + flush() in the same session compact() rebuilds the archive from the tables captured at open(): the replacement is silently reverted, added files are reported as unknown")
 
+    # a file added with fix_key() must be encrypted with the key every reader derives (rule shared with C01)
+    from .c01 import key_size_operand_rule
+    key_size_operand_rule(ctx, mpq, "C06")
+
     # failure atomicity
     for name in ("add_file_data", "remove_file", "rename_file"):
         f = mpq.fns.get(MUT + name)
